@@ -864,6 +864,10 @@ def run(tier='quick'):
                           'again (every function of the library; rule D7 of C05)', floor=20)
     from . import extra
     extra.pointers_fresh(prog, chk, U14, [g for g in prog.functions.values() if g.body is not None and prog.in_repo(g.file)])
+    U15 = chk.rule('U15', 'a public call on a locked database terminates: the library installs no busy handler (a callback '
+                          'that always asks for another try waits for as long as another connection holds the lock; '
+                          'sqlite3_busy_timeout is bounded and accepted)', floor=1)
+    extra.no_unbounded_lock_wait(prog, chk, U15)
     return chk.finish('must-fact (dominance) analysis over the structured AST of every function of the library '
                       'outside the schema creators: %d functions; optional dereferences, container indexing, '
                       'iterator uses and integer divisions are obligations discharged by dominating guards' % len(chk.functions_analysed))
